@@ -32,7 +32,10 @@ Definition case_ok (c : case) : bool :=
   | CWf p ids => builder_ok p && ids_okb (cn_of p ids) p ids
   | CRebuild p cu obs =>
       match obs with
-      | Some cs => builder_ok (narrow_to cu p) && eqb (column_names (narrow_to cu p)) cs
+      (* the column SET: Sem.column_names lists a join's columns left-then-right, NaturalJoinNode re-uses b's order when the
+         joined set equals b's; the order is not part of C10 *)
+      | Some cs => builder_ok (narrow_to cu p) && set_eqb (column_names (narrow_to cu p)) cs
+                   && Nat.eqb (List.length (column_names (narrow_to cu p))) (List.length cs)
       | None => negb (builder_ok (narrow_to cu p))
       end
   | CNode n u obs => same_sets (cols_from_sources n u) obs
